@@ -46,6 +46,29 @@ def fetchLoop : Nat → List Attempt → Option (R ApiVersionsState)
 def fetchApiVersions (attempts : List Attempt) : Option (R ApiVersionsState) :=
   fetchLoop apiVersionAttempts attempts
 
+/-- the loop of `fetch_api_versions` together with what the method returns (`if resp: return
+    KafkaCodec.decode_api_versions_response(resp)`, else the `ApiVersionResponse(-1, [])` it also
+    hands to `_handle_api_version_update`): new state, `error_code`, `api_versions` -/
+def fetchLoopCall : Nat → List Attempt → Option (R (ApiVersionsState × Int × List ApiVersion))
+  | 0, _ => some (.ok (handleApiVersionUpdate (-1) [], -1, []))
+  | _+1, [] => none
+  | n+1, .unavailable :: rest => fetchLoopCall n rest
+  | _+1, .reply data :: _ =>
+    match decodeApiVersionsResponse data with
+    | .error e => some (.error e)
+    | .ok (err, vs) => some (.ok (handleApiVersionUpdate err vs, err, vs))
+
+/-- the PUBLIC `KafkaClient.fetch_api_versions()`, callable in any state.  The loop condition is
+    `self._api_versions is None and api_version_failures < 3`: once a discovery has ended (table or
+    fallback) the loop is not entered, `resp` is still `None`, and `ApiVersionResponse(-1, [])` is
+    handed to `_handle_api_version_update` and returned — the state becomes `0` and a table that
+    had been discovered is forgotten. -/
+def fetchApiVersionsCall (st : ApiVersionsState) (attempts : List Attempt) :
+    Option (R (ApiVersionsState × Int × List ApiVersion)) :=
+  match st with
+  | .undiscovered => fetchLoopCall apiVersionAttempts attempts
+  | _ => fetchLoopCall 0 attempts
+
 /-- the lookup of `get_api_version(key)` once the state is known -/
 def lookupVersion (key : Int) : ApiVersionsState → Option Int
   | .undiscovered => none
